@@ -99,7 +99,7 @@ def static_part(pid, rep, S, components, cov):
 
 
 def shape_stats(S):
-    st = dict(decls=0, with_goroutines=0, cross_thread_waits=0, structs=0, multi_value=0, binds=0, values=0, rejected=0, nodes_hist={})
+    st = dict(decls=0, with_goroutines=0, cross_thread_waits=0, structs=0, nested_structs=0, nested_inner_listed_first=0, nested_field_read=0, multi_value=0, binds=0, values=0, rejected=0, nodes_hist={})
     for r in S["records"]:
         if not r["id"] or not r.get("decl"):
             continue
@@ -107,6 +107,14 @@ def shape_stats(S):
         m = r["decl"]["meta"]
         st["nodes_hist"][str(m["n"])] = st["nodes_hist"].get(str(m["n"]), 0) + 1
         st["structs"] += m["structnode"] is not None
+        if m.get("nested"):
+            st["nested_structs"] += 1
+            sts = [p["type"] for p in r["decl"]["provs"] if p["kind"] == "struct"]
+            st["nested_inner_listed_first"] += bool(sts and sts[0].endswith("St2"))
+            ob_ = r.get("obs")
+            if ob_:
+                nd = len(r["decl"]["provs"])
+                st["nested_field_read"] += any(it["pi"] >= nd and any(a[0] == "var" and a[1] >= nd for a in it["args"]) for th in [ob_["main"]] + ob_["gos"] for it in th)
         st["multi_value"] += bool(m["second"])
         st["binds"] += bool(m["binds"])
         st["values"] += bool(m["values"])
